@@ -52,6 +52,7 @@ type Config struct {
 	ConcreteSched   []int
 	RecordQueries   bool
 	NoMerge         bool
+	CrossCheck      int // number of assertion queries per job kept for cross-solver re-checking
 	SlowQuery       time.Duration
 	SlowDir         string
 	Negate          bool // twin run: vAssert conditions are negated (vacuity guard)
@@ -109,6 +110,7 @@ type Summary struct {
 	Wall          time.Duration
 	PathsPerLabel map[string]int
 	ForkSites     map[string]int
+	Cross         []CrossQuery
 }
 
 // Load loads the repository packages (with overlay) and builds SSA.
@@ -496,6 +498,9 @@ func (e *Engine) merge(res *PathResult) {
 	for k, n := range res.ForkSites {
 		s.ForkSites[k] += n
 	}
+	if len(s.Cross) < e.Cfg.CrossCheck {
+		s.Cross = append(s.Cross, res.Cross...)
+	}
 	for k := range res.Intrinsics {
 		s.Intrinsics[k] = true
 	}
@@ -701,4 +706,17 @@ func (e *Engine) fileInfoType() types.Type {
 		e.fiType = types.NewNamed(types.NewTypeName(token.NoPos, nil, "statStubFileInfo", nil), types.NewStruct(nil, nil), nil)
 	}
 	return e.fiType
+}
+
+var crossCounter int64
+
+// wantCross samples assertion queries: every 37th non-trivial one until the quota is full.
+func (e *Engine) wantCross() bool {
+	e.mu.Lock()
+	defer e.mu.Unlock()
+	if len(e.Sum.Cross) >= e.Cfg.CrossCheck {
+		return false
+	}
+	crossCounter++
+	return crossCounter%37 == 1
 }
